@@ -322,3 +322,119 @@ def exprs_agree(prog, process):
         elif x != y:
             return False
     return True
+
+
+# ---- text -> AST through the implementation's own front end (no semantic check) ---------
+def front_process(text):
+    """lexer + parser + tree visitor of the implementation, without the semantic checker.
+    -> (process or None, syntax_errors: bool, exception class or None)"""
+    from antlr4.CommonTokenStream import CommonTokenStream
+    from antlr4.InputStream import InputStream
+    from pfdl_scheduler.parser.pfdl_tree_visitor import PFDLTreeVisitor
+    from pfdl_scheduler.parser.PFDLLexer import PFDLLexer
+    from pfdl_scheduler.parser.PFDLParser import PFDLParser
+    from pfdl_scheduler.validation.error_handler import ErrorHandler
+    from pfdl_scheduler.validation.syntax_error_listener import SyntaxErrorListener
+    with contextlib.redirect_stdout(io.StringIO()):
+        try:
+            lexer = PFDLLexer(InputStream(text))
+            lexer.removeErrorListeners()
+            ts = CommonTokenStream(lexer)
+            parser = PFDLParser(ts)
+            parser.removeErrorListeners()
+            eh = ErrorHandler("", False)
+            parser.addErrorListener(SyntaxErrorListener(ts, eh))
+            tree = parser.program()
+            if eh.has_error():
+                return None, True, None
+            process = PFDLTreeVisitor(eh).visit(tree)
+            return process, False, None
+        except RecursionError:
+            return None, False, "RecursionError"
+        except Exception as e:  # noqa: BLE001
+            return None, False, type(e).__name__
+
+
+def process_to_prog(process):
+    """parsed Process -> harness AST (duplicates are already collapsed by the visitor)"""
+    from fractions import Fraction
+    import gen_expr
+    from impl_run import parse_pelem
+    from pfdl_scheduler.model.array import Array
+    from pfdl_scheduler.model.struct import Struct
+    from pfdl_scheduler.model.service import Service
+    from pfdl_scheduler.model.task_call import TaskCall
+    from pfdl_scheduler.model.parallel import Parallel
+    from pfdl_scheduler.model.while_loop import WhileLoop
+    from pfdl_scheduler.model.counting_loop import CountingLoop
+    from pfdl_scheduler.model.condition import Condition
+
+    def vt(t):
+        if isinstance(t, Array):
+            ln = t.length if (isinstance(t.length, int) and t.length >= 0) else None
+            return ("array", t.type_of_elements, ln)
+        return ("plain", t)
+
+    def js(v):
+        if isinstance(v, bool):
+            return ("bool", v)
+        if isinstance(v, (int, float)):
+            try:
+                return ("num", Fraction(v))
+            except (ValueError, OverflowError):
+                return ("num", Fraction(0))
+        if isinstance(v, str):
+            return ("str", "s")
+        if isinstance(v, Array):
+            return ("arr", [js(x) for x in v.values])
+        if isinstance(v, Struct):
+            return ("obj", [(k, js(x)) for k, x in v.attributes.items()])
+        return ("str", "s")
+
+    def param(p):
+        if isinstance(p, str):
+            return ("var", p)
+        if isinstance(p, list):
+            return ("path", p[0], [parse_pelem(x) for x in p[1:]])
+        return ("lit", p.name, js(p))
+
+    def expr(e):
+        if e is None:
+            return ("str", "s")
+        return strip_str(gen_expr.dict_to_ast(e))
+
+    def strip_str(e):
+        if e[0] == "str":
+            return ("str", "s")
+        if e[0] in ("not", "paren"):
+            return (e[0], strip_str(e[1]))
+        if e[0] == "bin":
+            return ("bin", e[1], strip_str(e[2]), strip_str(e[3]))
+        return e
+
+    def call(c):
+        return (c.name, [param(p) for p in c.input_parameters], [(k, vt(t)) for k, t in c.output_parameters.items()])
+
+    def stmt(s):
+        if isinstance(s, Service):
+            c = call(s)
+            return ("service", c[0], c[1], c[2])
+        if isinstance(s, TaskCall):
+            c = call(s)
+            return ("call", c[0], c[1], c[2])
+        if isinstance(s, Parallel):
+            return ("parallel", [call(c) for c in s.task_calls])
+        if isinstance(s, WhileLoop):
+            return ("while", expr(s.expression), [stmt(x) for x in s.statements])
+        if isinstance(s, CountingLoop):
+            lim = ("int", s.limit) if isinstance(s.limit, int) else ("path", s.limit[0], [parse_pelem(x) for x in s.limit[1:]])
+            return ("count", bool(s.parallel), s.counting_variable, lim, [stmt(x) for x in s.statements])
+        if isinstance(s, Condition):
+            return ("cond", expr(s.expression), [stmt(x) for x in s.passed_stmts], [stmt(x) for x in s.failed_stmts])
+        raise ValueError(s)
+
+    structs = [{"name": s.name, "attrs": [(k, vt(t)) for k, t in s.attributes.items()]} for s in process.structs.values()]
+    tasks = [{"name": t.name, "ins": [(k, vt(ty)) for k, ty in t.input_parameters.items()],
+              "body": [stmt(x) for x in t.statements], "outs": list(t.output_parameters)}
+             for t in process.tasks.values()]
+    return {"structs": structs, "tasks": tasks}
